@@ -4,7 +4,7 @@
    "Matches its specification" is the pair: Model/Cyclist.v is the Cyclist mode of the Xoodyak paper
    and reproduces the published XKCP transcript (Proofs/CyclistVectors.v, Proofs/KeccakVectors.v), and
    the Go code agrees with that model on every run of ./check C13 (Corr/C13.v). *)
-From Hop Require Import Base Keccak Cyclist CyclistProofs CyclistVectors KeccakVectors.
+From Hop Require Import Base Keccak Cyclist CyclistProofs CyclistSpecProofs CyclistVectors KeccakVectors.
 Open Scope N_scope.
 
 (* The receiver of a ciphertext recovers the plaintext AND ends in exactly the sender's state. *)
@@ -80,6 +80,110 @@ Print Assumptions c13_hash_mode_ignores_cu.
 Theorem c13_hash_mode_masks_cd : forall c x cd, md c = MHash -> cy_down c x cd = cy_down c x (N.land cd 1).
 Proof. exact down_hash_masks_cd. Qed.
 Print Assumptions c13_hash_mode_masks_cd.
+
+(* ---- the interface restated in the form of the Xoodyak paper's Algorithms 2-3 (for every f) ----
+   These pin the mode independently of the Go code and of the (short) XKCP transcript: every colour byte,
+   rate and length of the specification appears in a statement below. *)
+
+(* Split(X, r): one block if |X| <= r (also for the empty string), else the first r bytes and Split of the rest *)
+Theorem c13_spec_split : forall r x y,
+  ((List.length x <= r)%nat -> cy_blocks r x = [x]) /\
+  ((0 < r)%nat -> List.length x = r -> y <> [] -> cy_blocks r (x ++ y) = x :: cy_blocks r y) /\
+  List.concat (cy_blocks r x) = x.
+Proof. intros r x y. exact (conj (blocks_small r x) (conj (blocks_app r x y) (blocks_concat r x))). Qed.
+Print Assumptions c13_spec_split.
+
+(* Down(X, c_D): s <- s + (X || 01 || 00* || c_D), c_D and 01 in hash mode; phase down, mode and rates kept *)
+Theorem c13_spec_down : forall c x cd, (List.length x <= 198)%nat ->
+  st (cy_down c x cd) =
+  xor_into (st c) (x ++ [1] ++ repeat 0 (198 - List.length x) ++
+                   [match md c with MHash => N.land cd 1 | MKey => cd end]).
+Proof. exact down_paper_form. Qed.
+Print Assumptions c13_spec_down.
+
+(* Up(c_U): s <- f(s + (00* || c_U)) in keyed mode, f(s) in hash mode *)
+Theorem c13_spec_up : forall (f : bytes -> bytes) c cu,
+  st (cy_up f c cu) = f (match md c with MHash => st c | MKey => xor_into (st c) (repeat 0 199 ++ [cu]) end).
+Proof. exact up_paper_form. Qed.
+Print Assumptions c13_spec_up.
+
+(* Absorb(X) = AbsorbAny(X, R_absorb, 0x03): a Down per block, colour 0x03 on the first and 0x00 after,
+   an Up(0x00) before a block iff the phase is down *)
+Theorem c13_spec_absorb : forall (f : bytes -> bytes) c x y,
+  ((List.length x <= r_abs c)%nat -> cy_absorb f c x = cy_down (up_if_down f c) x 3) /\
+  ((0 < r_abs c)%nat -> List.length x = r_abs c -> y <> [] ->
+   cy_absorb f c (x ++ y) = absorb_any f (cy_down (up_if_down f c) x 3) y (r_abs c) 0).
+Proof. intros f c x y. exact (conj (absorb_one_block f c x) (absorb_more_blocks f c x y)). Qed.
+Print Assumptions c13_spec_absorb.
+Theorem c13_spec_absorb_any : forall (f : bytes -> bytes) c x y r cd,
+  ((List.length x <= r)%nat -> absorb_any f c x r cd = cy_down (up_if_down f c) x cd) /\
+  ((0 < r)%nat -> List.length x = r -> y <> [] ->
+   absorb_any f c (x ++ y) r cd = absorb_any f (cy_down (up_if_down f c) x cd) y r 0).
+Proof. intros f c x y r cd. exact (conj (absorb_any_small f c x r cd) (absorb_any_app f c x y r cd)). Qed.
+Print Assumptions c13_spec_absorb_any.
+
+(* AbsorbKey: K || id || enc8(|id|) in ONE Down with colour 0x02 on the keyed empty object (rates 136),
+   then the counter one byte per block with colour 0x00; Panic iff K is non-empty and |K| + |id| >= 136;
+   no key: the empty hash-mode object *)
+Theorem c13_spec_initialize : forall (f : bytes -> bytes) k id ctr,
+  cy_initialize f [] id ctr = Ok cy_empty /\
+  (k <> [] -> (List.length k + List.length id <= 135)%nat ->
+   cy_initialize f k id [] = Ok (cy_down keyed_empty (k ++ id ++ [N.of_nat (List.length id) mod 256]) 2)) /\
+  (k <> [] -> ctr <> [] -> (List.length k + List.length id <= 135)%nat ->
+   cy_initialize f k id ctr =
+   Ok (fold_left (fun c' b => cy_down (up_if_down f c') [b] 0) ctr
+         (cy_down keyed_empty (k ++ id ++ [N.of_nat (List.length id) mod 256]) 2))) /\
+  (k <> [] -> (136 <= List.length k + List.length id)%nat -> cy_initialize f k id ctr = Panic).
+Proof.
+  intros f k id ctr.
+  exact (conj (initialize_hash f id ctr) (conj (initialize_keyed_no_counter f k id)
+        (conj (initialize_keyed_counter f k id ctr) (initialize_too_long_panics f k id ctr)))).
+Qed.
+Print Assumptions c13_spec_initialize.
+
+(* Squeeze = SqueezeAny(l, 0x40), SqueezeKey = SqueezeAny(l, 0x20);
+   SqueezeAny: Up(c_U) and the first min(l, R) state bytes, then while bytes are missing Down(empty, 0x00), Up(0x00) *)
+Theorem c13_spec_squeeze : forall (f : bytes -> bytes) c n cu,
+  cy_squeeze f c n = squeeze_any f c n 64 /\
+  (md c = MKey -> cy_squeeze_key f c n = Ok (squeeze_any f c n 32)) /\
+  ((n <= r_sq c)%nat -> squeeze_any f c n cu = (firstn n (st (cy_up f c cu)), cy_up f c cu)) /\
+  ((0 < r_sq c)%nat -> (r_sq c < n)%nat ->
+   squeeze_any f c n cu =
+   let c1 := cy_up f c cu in
+   let (y, c2) := squeeze_any f (cy_down c1 [] 0) (n - r_sq c) 0 in
+   (firstn (r_sq c) (st c1) ++ y, c2)).
+Proof.
+  intros f c n cu.
+  exact (conj (squeeze_colour f c n) (conj (squeeze_key_colour f c n)
+        (conj (squeeze_any_one_block f c n cu) (squeeze_any_more_blocks f c n cu)))).
+Qed.
+Print Assumptions c13_spec_squeeze.
+
+(* Ratchet = AbsorbAny(SqueezeAny(32, 0x10), R_absorb, 0x00) = Up(0x10), then Down of the first 32 state bytes, colour 0x00 *)
+Theorem c13_spec_ratchet : forall (f : bytes -> bytes) c,
+  md c = MKey -> (32 <= r_sq c)%nat -> (32 <= r_abs c)%nat ->
+  cy_ratchet f c = let c1 := cy_up f c 16 in Ok (cy_down c1 (firstn 32 (st c1)) 0).
+Proof. exact ratchet_closed_form. Qed.
+Print Assumptions c13_spec_ratchet.
+
+(* Crypt: blocks of R_kout = 136; Up(0x80) for the first block and Up(0x00) for the others; output = input
+   xor state; then Down of the PLAINTEXT block with colour 0x00 *)
+Theorem c13_spec_crypt : forall (f : bytes -> bytes) c p d x y,
+  (md c = MKey -> (List.length p <= 136)%nat ->
+   cy_encrypt f c p = let c1 := cy_up f c 128 in Ok (xor_ks p (st c1), cy_down c1 p 0)) /\
+  (md c = MKey -> (List.length p <= 136)%nat ->
+   cy_decrypt f c p = let c1 := cy_up f c 128 in let q := xor_ks p (st c1) in Ok (q, cy_down c1 q 0)) /\
+  (List.length x = 136%nat -> y <> [] ->
+   crypt f d c (x ++ y) =
+   let c1 := cy_up f c 128 in
+   let o := xor_ks x (st c1) in
+   let (os, c3) := crypt_blocks f d (cy_down c1 (if d then o else x) 0) (cy_blocks 136 y) 0 in
+   (o ++ List.concat os, c3)).
+Proof.
+  intros f c p d x y.
+  exact (conj (encrypt_one_block f c p) (conj (decrypt_one_block f c p) (crypt_more_blocks f d c x y))).
+Qed.
+Print Assumptions c13_spec_crypt.
 
 (* ---- anchors and non-vacuity ---- *)
 (* the published XKCP transcript, on the Gallina Cyclist over the Gallina Keccak-p[1600,12] *)
